@@ -2,12 +2,15 @@
 from .. import terms as T
 from .common import *  # noqa: F401,F403
 
+from ..values import VModule
+
 MOD = "qucumber.utils.cplx"
 
 
 def cx(it, name, shape):
     """Complex input: (2, *shape) tensor whose term is the pair (name_r, name_i)."""
     o = it.new_tobj("tensor", T.stack0(T.sym(name + "r"), T.sym(name + "i")), (2,) + tuple(shape), "param:" + name)
+    o.fw = 64  # "float64 operands"
     return VTens(o)
 
 
@@ -170,7 +173,31 @@ def run(ck):
         for p in returning(paths, "sigmoid"):
             z = S("a") + T.sym("lit:1j") * S("b")
             out = T.exp(z) / (1 + T.exp(z))
-            _pair_check(ck, "C15.R2", "sigmoid:packing", fi.site(), p.value.term, T.app("npreal", out), T.app("npimag", out))
+            comps = T.as_stack0(p.value.term) if p.value.term is not None else None
+            parts = []
+            for k_, nm_ in enumerate(("npreal", "npimag")):
+                a_ = comps[k_].single_atom() if comps is not None and len(comps) == 2 else None
+                parts.append(a_.args[0] if isinstance(a_, T.App) and a_.op == nm_ else None)
+            if parts[0] is None or parts[1] is None:
+                ck.undecided("C15.R2", "sigmoid:packing", fi.site(), "the result is not (real part, imaginary part) of one complex array: %r" % (p.value.term,))
+                continue
+            ck.check(parts[0] == parts[1], "C15.R2", "sigmoid:packing", fi.site(), "the real and the imaginary slot are taken from different complex values")
+            # the complex value: exp(z) / (1 + exp(z)) as a rational function of exp(z), in every case of an elementwise selection
+            cases = where_cases(parts[0])
+            if cases is None:
+                ck.undecided("C15.R2", "sigmoid:value", fi.site(), "too many elementwise selections")
+            for asg, tc in cases or []:
+                try:
+                    same = T.ratfun_equal(tc, out)
+                except Exception:
+                    same = None
+                ck.check(True if same else None if same is None else False, "C15.R2", "sigmoid:value = exp(z)/(1+exp(z)) %s" % (asg or ""), fi.site(),
+                         "the complex value is %r; expected exp(z) / (1 + exp(z))" % (str(tc)[:160],))
+            # finite operands: exp(z) overflows for Re z > 709.78; exp(z) / (1 + exp(z)) is then inf / inf = nan although the sigmoid is 1
+            haz = [h for h in p.interp.numeric if "[overflow]" in h[1] and "exp(x) / (1 + exp(x))" in h[1]]
+            ck.check(not haz, "C15.R2", "sigmoid:finite for every finite operand", haz[0][0] if haz else fi.site(),
+                     "the sigmoid is computed as exp(z) / (1 + exp(z)) of an unbounded argument: for Re z > 709.78 exp(z) is inf and the quotient is nan (the value is 1 there); "
+                     "\"all finite operand values\" includes these", key="C15.R2|sigmoid|exp overflow")
 
     # ------------------------------------------------------------ R3 Kronecker index order
     with ck.guard("C15.R3", "kronecker_prod"):
@@ -284,6 +311,28 @@ def run(ck):
     ck.require_min("C15.R2", 12)
     ck.require_min("C15.R3", 2)
     ck.require_min("C15.R4", 10)
+    # ------------------------------------------------------------ R7 the float32 imaginary unit never narrows a float64 operand
+    # cplx.I is float32 (torch.Tensor([0, 1])); the quantifier names it as an operand next to float64 tensors.  Whatever the
+    # operand order, the float64 operand's values must enter the product unrounded.
+    modv = VModule(ck.program.modules[MOD]) if hasattr(ck.program, "modules") else None
+    for fname, shp in (("scalar_mult", ("n",)), ("elementwise_mult", ("n",)), ("inner_prod", ()), ("scalar_divide", ("n",))):
+        for order in ("I first", "I second"):
+            inst = "%s/%s" % (fname, order)
+            with ck.guard("C15.R7", inst):
+                def bld(it, shp=shp, order=order, fname=fname):
+                    I = it.get_attr(modv, "I", None)
+                    y = cx(it, "y", shp if not (fname == "matmul" and order == "I second") else ("n", "m"))
+                    return ([I, y] if order == "I first" else [y, I], {})
+
+                fi, paths = _call(ck, fname, bld)
+                for p in paths:
+                    if p.outcome != "return":
+                        continue  # shape combinations a function refuses are R4's matter
+                    nar = [n_ for n_ in p.interp.narrowings if any(o_.origin == "param:y" for o_ in n_[2].roots())]
+                    ck.check(not nar, "C15.R7", inst + ":the float64 operand is not rounded to float32", nar[0][0] if nar else fi.site(),
+                             "%s(%s): %s - the float64 operand is cast to the float32 dtype of cplx.I before the product, the result is single precision (relative error ~3e-8)"
+                             % (fname, "cplx.I, y" if order == "I first" else "y, cplx.I", nar[0][1] if nar else ""), key="C15.R7|%s|narrowed by cplx.I" % fname)
+    ck.require_min("C15.R7", 6)
     ck.require_min("C15.R5", 9)
     ck.require_min("C15.R6", 40)
     ck.assumptions += [
